@@ -183,6 +183,17 @@ class C08(Check):
             out.close('surface_operand', float(getattr(AO, k)(o, j)), float(lib[k][j]), rtol=1e-13, atol=0, family=k)
         for j in range(5):
             out.close('seidel_operand', float(AO.seidels(o, j + 1)), float(lib['S'][j]), rtol=1e-13, atol=0)
+        # the same operands reached by name, as the optimiser and the tolerancing module reach them
+        from optiland.optimization.operand.operand import Operand
+        for k in ('TSC', 'CC', 'TAC', 'TPC', 'DC', 'TAchC', 'TchC', 'SC', 'AC', 'PC', 'LchC', 'TCC'):
+            v = float(np.ravel(Operand(k + '_sum', 0.0, 1.0, {'optic': o}).value)[0])
+            out.close('named_operand', v, float(np.sum(lib[k])), rtol=1e-12, scale=float(np.sum(np.abs(lib[k]))) + 1e-300,
+                      name=k + '_sum')
+            jj = K // 2
+            v = float(np.ravel(Operand(k, 0.0, 1.0, {'optic': o, 'surface_number': jj}).value)[0])
+            out.close('named_operand', v, float(lib[k][jj]), rtol=1e-13, atol=0, name=k)
+        v = float(np.ravel(Operand('seidel', 0.0, 1.0, {'optic': o, 'seidel_number': 3}).value)[0])
+        out.close('named_operand', v, float(lib['S'][2]), rtol=1e-13, atol=0, name='seidel')
         powered = sum(1 for j in range(K) if ps.c[j] != 0 and (ps.mirror[j] or ps.n_abs[j] != ps.n_abs[j + 1]))
         out.nt(powered >= 3 and ps.stop != 1 and mf > 0)
         if spec is None:
